@@ -720,6 +720,11 @@ class ExternalTensor(TensorBase, _protocols.TensorProtocol):  # pylint: disable=
 
     @base_dir.setter
     def base_dir(self, value: str | os.PathLike) -> None:
+        if value != self._base_dir:
+            # A memory map made under the previous base directory was validated against
+            # that directory only (or not at all, when it was empty). Drop it so that the
+            # next read opens the path again and is checked against the new base directory.
+            self.release()
         self._base_dir = value
 
     @property
